@@ -157,6 +157,12 @@ def rewrap (h : Heap α) (ids : List Nat) (spec : ErrSpec α) : Heap α × Out :
 def valsOf (h : Heap α) (ids : List Nat) : List α :=
   ids.map fun i => match h[i]? with | some q => q.value | none => zero
 
+/-- no specification: the existing uncertainties stay -/
+def assignOpt (h : Heap α) (ids : List Nat) (spec : ErrSpec α) (es : List α) : Heap α :=
+  match spec with
+  | .none => h
+  | _ => assignErrors h ids es
+
 /-- both uncertainty specifications and the lengths are validated before anything is assigned -/
 def rewrapXY (h : Heap α) (idsX idsY : List Nat) (xerr yerr : ErrSpec α) : Heap α × Out :=
   if !allMeasured h idsX || !allMeasured h idsY then (h, .reject)
@@ -166,9 +172,7 @@ def rewrapXY (h : Heap α) (idsX idsY : List Nat) (xerr yerr : ErrSpec α) : Hea
     | some ex, some ey =>
       if idsX.length != idsY.length then (h, .reject)
       else
-        let h1 := match xerr with | .none => h | _ => assignErrors h idsX ex
-        let h2 := match yerr with | .none => h1 | _ => assignErrors h1 idsY ey
-        (h2, .ok)
+        (assignOpt (assignOpt h idsX xerr ex) idsY yerr ey, .ok)
     | _, _ => (h, .reject)
 
 /-- `x.error = e` (MeasuredValue and DerivedValue setters; a derived value becomes a measurement) -/
